@@ -21,11 +21,19 @@ HIST_ASSUME = ["fake API server (client-go object tracker) with the real pods/bi
                "Bind is only issued after a successful Filter of the same pod incarnation, to a node Filter returned; one filter/bind request per pod at a time",
                "IPv4, DNS-1123 names; which free IP galaxy picks is left to the code (validity-predicate oracles)"]
 
-def hist(test, rule, quick=2500, thorough=160000, floors=None, extra_assume=None):
-    return {"pkg": "ipamsim", "test": test, "level": "exploration",
+ENUM = (" thorough additionally cuts one in 100 generated cases after its last concurrent episode (reduced to two operations) and enumerates "
+        "EVERY scheduler decision sequence of that episode depth-first (world rebuilt per schedule, bound 1500 schedules per episode; "
+        "coverage.extra reports episodes enumerated, schedules run and how many episodes were exhausted).")
+
+def hist(test, rule, quick=2500, thorough=160000, floors=None, extra_assume=None, enum=False):
+    d = {"pkg": "ipamsim", "test": test, "level": "exploration",
             "quick": {"checks": quick, "timeout": 900},
             "thorough": {"checks": thorough, "shards": 16, "timeout": 2400},
-            "rule": rule, "assumptions": HIST_ASSUME + (extra_assume or []), "floors": floors or {}}
+            "rule": rule + (ENUM if enum else ""), "assumptions": HIST_ASSUME + (extra_assume or []), "floors": floors or {}}
+    if enum:
+        d["thorough"]["env"] = {"VERIF_ENUM_RATE": "100", "VERIF_ENUM_BOUND": "1500"}
+        d["thorough"]["timeout"] = 3600
+    return d
 
 GEN = ("rapid draws a Case = generated topology (1-4 pools over 2-4 node subnets, rendered to the documented JSON text and loaded through "
        "the real decoder) + 1-3 workloads (statefulset, deployment, deployment with pool, scalable/non-scalable custom resource, bare pod; "
@@ -37,7 +45,7 @@ GEN = ("rapid draws a Case = generated topology (1-4 pools over 2-4 node subnets
 CHECKS.update({
     "C01": hist("TestC01", GEN + "Oracle after every op and every scheduler step: tables disjoint and = configured set, payloads of live "
                 "bound pods pairwise disjoint, no live pod's IP owned by another pod key. Non-trivial = >=2 pods bound and (an IP changed "
-                "owner, or an episode overlapped >=2 ops); distinct by SHA-1 of the case.", floors={"two_pods_bound": 0.2, "same_name_recreated": 0.3}),
+                "owner, or an episode overlapped >=2 ops); distinct by SHA-1 of the case.", floors={"two_pods_bound": 0.2, "same_name_recreated": 0.3}, enum=True),
     "C02": hist("TestC02", GEN + "Biased to immutable/never/pool workloads and delete/recreate/reschedule. Oracle per filter/bind: a pod "
                 "whose key holds a reserved IP is only offered nodes routable for it and is bound with exactly that IP; a deployment/pool "
                 "pod whose app prefix holds reserved IPs gets one of them. Non-trivial = a binding happened while a reservation for that "
@@ -49,7 +57,7 @@ CHECKS.update({
     "C04": hist("TestC04", GEN + "Biased to same-name re-creation with late/duplicate unbind sources, resync, API release, reloads that keep "
                 "the IP, pod-IP sync. Oracle after every op and scheduler step: every live bound pod's still-configured IP is allocated to "
                 "its key, and the provider was not asked to unassign it. Non-trivial = a release path ran while a same-named replacement "
-                "was live and bound.", floors={"same_name_recreated": 0.3}),
+                "was live and bound.", floors={"same_name_recreated": 0.3}, enum=True),
     "C10": hist("TestC10", GEN + "Recording cloud provider with cleanly failing calls. Oracle: per-IP state machine none|on(node) replayed "
                 "over the call log after every op/step (no assign to a second node while assigned, live bound pod's IP on its node, free "
                 "IP unassigned). Non-trivial = a pod identity was bound on two different nodes or a provider call failed.",
@@ -74,14 +82,14 @@ CHECKS["C07"] = hist("TestC07", "rapid draws topologies, 1-3 deployments sharing
     "POST /v1/pool with preAllocateIP, pool size update, unbind - interleaved by the cooperative scheduler at every lister/IPAM/API call. "
     "Oracle after every op and every scheduler step: #IPs keyed under pool__<name>_ <= max(count when the op/episode started, largest "
     "size in force in truth or lister during it). Non-trivial = an episode in which >= 2 ops overlapped; distinct by SHA-1 of the case.",
-    quick=2500, thorough=120000, floors={"episode_overlapped": 0.2, "pre_allocation": 0.1})
+    quick=2500, thorough=120000, floors={"episode_overlapped": 0.2, "pre_allocation": 0.1}, enum=True)
 CHECKS["C09"] = hist("TestC09", GEN + "Sequences of 2-4 configurations (ranges shrink/grow/move, pools disappear, node subnets change), "
     "administrator reservations (labelled FloatingIP) whose watch event is delivered early/late/never, and episodes running one reload "
     "concurrently with schedule/bind/unbind/API release/pod-IP sync/reservation events. Oracle: no allocation or binding of a reserved or "
     "unconfigured IP at any step; after every reload (and every episode containing one) memory == store for every configured IP, no "
     "table entry or FloatingIP object outside the configuration. Non-trivial = a reload dropped >=1 allocated IP and kept >=1, or a "
     "reload overlapped another operation.", quick=2500, thorough=120000, floors={"reservation": 0.03, "reload_dropped_and_kept": 0.03},
-    extra_assume=["at most one reload, one resync/pod-IP-sync pass and one informer event handler run at a time (single goroutine sources in galaxy-ipam)"])
+    enum=True, extra_assume=["at most one reload, one resync/pod-IP-sync pass and one informer event handler run at a time (single goroutine sources in galaxy-ipam)"])
 
 IPAM_ASSUME = ["fake API server (client-go object tracker); pre-states are built through the real IPAM (AllocateSpecificIP)",
                "IPv4; node subnets pairwise identical or disjoint; requested range lists pairwise disjoint (precondition of the feature)"]
